@@ -337,6 +337,68 @@ func TestCheck(t *testing.T) {
 		})
 	})
 
+	r.Phase("B2: Next* and the order laws with one component at 2^k-1, 2^k, 2^k+1 (k = 0..63) in each position, the others small", func() {
+		r.Parallel(64, 1, func(w *vkit.W, lo, hi int64) {
+			for k := lo; k < hi; k++ {
+				for _, delta := range []uint64{0, 1, 2} {
+					x := uint64(1)<<uint(k) - 1 + delta
+					for pos := 0; pos < 3; pos++ {
+						for _, rest := range [][2]uint64{{0, 0}, {5, 7}, {1, x}, {x, x}} {
+							v := V{Pre: []string{"", "rc.1"}[int(k)%2]}
+							switch pos {
+							case 0:
+								v.Major, v.Minor, v.Patch = x, rest[0], rest[1]
+							case 1:
+								v.Major, v.Minor, v.Patch = rest[0], x, rest[1]
+							default:
+								v.Major, v.Minor, v.Patch = rest[0], rest[1], x
+							}
+							judge(Case{Kind: "next", A: v}, w)
+							w.Eval(true)
+							for _, o := range []V{{Major: 1, Minor: 5}, {Major: v.Major, Minor: v.Minor, Patch: v.Patch}, {Major: v.Major, Minor: 5}, {Major: v.Major, Minor: v.Minor, Patch: 5}, {Major: v.Major + 1}} {
+								c := Case{Kind: "pair", A: v, B: o}
+								judge(c, w)
+								w.Eval(ntPair(c))
+							}
+						}
+					}
+				}
+			}
+		})
+	})
+
+	// helper texts whose numeric components lie around 2^64 and far beyond: invalid for every helper from 2^64 on
+	r.Phase("C2: string helpers on texts with numeric components around 2^64, d x 10^19, 20-25 digit numbers, in each position", func() {
+		nums := []string{"18446744073709551614", "18446744073709551615", "18446744073709551616", "18446744073709551617", "18446744073709551618", "18446744073709551619", "18446744073709551620", "18446744073709551625",
+			"36893488147419103232", "36893488147419103231", "184467440737095516150", "184467440737095516160", "1844674407370955161", "9999999999999999999", "10000000000000000000",
+			"20000000000000000000", "25000000000000000000", "30000000000000000000", "40000000000000000000", "50000000000000000000", "60000000000000000000", "70000000000000000000", "80000000000000000000", "90000000000000000000",
+			"99999999999999999999", "100000000000000000000", "340282366920938463463374607431768211455", "340282366920938463463374607431768211456", "1" + strings.Repeat("0", 24), "9223372036854775807", "9223372036854775808", "4294967295", "4294967296"}
+		g := r.Rng("bignums", 0)
+		for i := 0; i < 40; i++ {
+			d := 20 + g.Intn(3)
+			b := []byte{byte('1' + g.Intn(9))}
+			for len(b) < d {
+				b = append(b, byte('0'+g.Intn(10)))
+			}
+			nums = append(nums, string(b))
+		}
+		var texts []string
+		for _, n := range nums {
+			texts = append(texts, n+".0.0", "0."+n+".0", "v0.0."+n, "1.2.3-"+n, "v"+n+"."+n+"."+n+"-rc+"+n)
+		}
+		partners := []string{"1.2.3", "v1.2.3", "0.0.0", "18446744073709551615.18446744073709551615.18446744073709551615", "x"}
+		r.Parallel(int64(len(texts)), 4, func(w *vkit.W, lo, hi int64) {
+			for i := lo; i < hi; i++ {
+				for _, p := range partners {
+					for _, c := range []Case{{Kind: "helper", TA: vkit.B(texts[i]), TB: vkit.B(p)}, {Kind: "helper", TA: vkit.B(p), TB: vkit.B(texts[i])}, {Kind: "helper", TA: vkit.B(texts[i]), TB: vkit.B(texts[i])}} {
+						judge(c, w)
+						w.EvalRandom(vkit.Hash64("C2", string(c.TA), string(c.TB)), true)
+					}
+				}
+			}
+		})
+	})
+
 	// helper texts: valid versions, tag forms, one-edit mutations, overflow, over-long
 	r.Phase("C: string helpers on a pool of valid/invalid texts (all ordered pairs)", func() {
 		pool := []string{"", "v", "1.2.3", "v1.2.3", "1.2.3-a01", "1.2.3-a1", "v1.2.3-rc.1+b", "1.2.3+b", "1.2", "1.2.3.4", "01.2.3", "1.2.3-01", "1.2.3-", "1.2.3+", "vv1.2.3", "V1.2.3", "1.2.3 ", "1.2.3-é",
